@@ -456,6 +456,20 @@ func xtypes() []xtype {
 
 func newHandle(format string, o vh.Opts) codec.Handle {
 	h := vh.NewHandle(format, o)
+	if nar, _ := o["NoAddressableReadonly"].(bool); nar {
+		switch x := h.(type) {
+		case *codec.CborHandle:
+			x.NoAddressableReadonly = true
+		case *codec.JsonHandle:
+			x.NoAddressableReadonly = true
+		case *codec.MsgpackHandle:
+			x.NoAddressableReadonly = true
+		case *codec.BincHandle:
+			x.NoAddressableReadonly = true
+		case *codec.SimpleHandle:
+			x.NoAddressableReadonly = true
+		}
+	}
 	if tnb, _ := o["TimeNotBuiltin"].(bool); tnb {
 		switch x := h.(type) {
 		case *codec.CborHandle:
@@ -514,7 +528,9 @@ func newHandle(format string, o vh.Opts) codec.Handle {
 // decoded into a map that already holds a value of that type under the key
 var positions = []string{"top", "ptr", "ptrptr", "field", "slice", "array", "mapval", "mapkey", "iface", "ifaceptr", "mapvalfield", "ifacefield", "mapiface", "mapifaceptr",
 	// a pointer leading to an interface{} that holds X by value: top level, field, slice element, map value
-	"pifacetop", "pifacefield", "pifaceslice", "pifacemap"}
+	"pifacetop", "pifacefield", "pifaceslice", "pifacemap",
+	// X held by value in an element of a []interface{}
+	"ifaceslice"}
 
 type mapKeyName string
 
@@ -623,6 +639,17 @@ func place(p string, xt reflect.Type, a int) (src reflect.Value, dst reflect.Val
 			d.Elem().SetMapIndex(reflect.ValueOf("k"), zero())
 			return m, d
 		}
+	case "ifaceslice":
+		st := reflect.SliceOf(ifaceT)
+		sl := reflect.MakeSlice(st, 2, 2)
+		sl.Index(0).Set(x)
+		sl.Index(1).Set(mk(a + 1))
+		d := reflect.New(st)
+		ds := reflect.MakeSlice(st, 2, 2)
+		ds.Index(0).Set(reflect.New(xt).Elem())
+		ds.Index(1).Set(reflect.New(xt).Elem())
+		d.Elem().Set(ds)
+		return sl, d
 	case "mapiface", "mapifaceptr":
 		mt := reflect.MapOf(reflect.TypeOf(mapKeyName("")), ifaceT)
 		m := reflect.MakeMap(mt)
@@ -695,7 +722,7 @@ func main() {
 	cases := flag.String("cases", "/verif/build/c17/cases", "directory for the model case files")
 	flag.Parse()
 	r := vh.NewRng(vh.SeedFromEnv())
-	sum := vh.NewSummary("25 types (a Selfer re-entering with another pointer type at the same address, a Selfer that re-enters the Decoder on a general-path map, Text / Binary marshalers whose form is empty-not-nil for the zero value, named scalar-kind types with Text / Binary / Selfer / all pairs, BytesExt/InterfaceExt, SelfExt, ext+Selfer, Selfer value/pointer receiver, Selfer+marshalers, Binary/Text/JSON marshaler pairs with value and pointer receivers, all three pairs, marshal-only, unmarshal-only, time.Time) x 18 positions (*interface{} holding X at top level / in a field / slice / map; incl. the interface{} value of a named-key map, pre-populated; a field of a small struct that is a map value / held by value in an interface{}) x root by value / by pointer x 5 formats x option vectors (Canonical on in every second round, TimeNotBuiltin in rounds 2 and 3 of every four, CheckCircularRef from round 1 on); distinct by (type, position, root, format, mechanism observed)")
+	sum := vh.NewSummary("25 types (a Selfer re-entering with another pointer type at the same address, a Selfer that re-enters the Decoder on a general-path map, Text / Binary marshalers whose form is empty-not-nil for the zero value, named scalar-kind types with Text / Binary / Selfer / all pairs, BytesExt/InterfaceExt, SelfExt, ext+Selfer, Selfer value/pointer receiver, Selfer+marshalers, Binary/Text/JSON marshaler pairs with value and pointer receivers, all three pairs, marshal-only, unmarshal-only, time.Time) x 19 positions (X by value in a []interface{} element; *interface{} holding X at top level / in a field / slice / map; incl. the interface{} value of a named-key map, pre-populated; a field of a small struct that is a map value / held by value in an interface{}) x root by value / by pointer x 5 formats x option vectors (Canonical on in every second round, TimeNotBuiltin in rounds 2 and 3 of every four, CheckCircularRef from round 1 on, NoAddressableReadonly in rounds 1 and 2); distinct by (type, position, root, format, mechanism observed)")
 	cv := vh.NewCases(*cases, "From Coq Require Import List NArith Bool.\nFrom Verif Require Import Gen.Choice C17.Model C17.Corr.\nImport ListNotations.", "case", "mismatches", 60)
 	id := 0
 	for _, format := range vh.Formats {
@@ -716,6 +743,10 @@ func main() {
 				o["CheckCircularRef"] = true
 			}
 			// TimeNotBuiltin: time.Time is then a Binary/Text/JSON marshaler like any other (every third round)
+			// NoAddressableReadonly: a non-addressable value is copied to make it addressable for a pointer-receiver hook
+			if round%4 == 1 || round%4 == 2 {
+				o["NoAddressableReadonly"] = true
+			}
 			if round%4 >= 2 { // rounds 2 (plain) and 3 (with Canonical)
 				o["TimeNotBuiltin"] = true
 			}
